@@ -10,7 +10,8 @@ SPEC = {
                   "allow list of an overlay address of that peer, and is not blocked; punch-notification targets pass the same filter; each owner contributes at most MaxRemotes = 10 "
                   "(generated from the code, pinned) reported v4, reported v6 and relay entries; static hosts stay registered with their configured addresses through any sequence of "
                   "tunnel closes, lighthouse answers, roaming, blocks and punches, and every admitted configured address is returned unless blocked. The model is tied to "
-                  "lighthouse.go / allow_list.go / outside.go / punchy.go / remote_list.go by a differential correspondence on real LightHouse histories.",
+                  "lighthouse.go / allow_list.go / outside.go / punchy.go / remote_list.go by a differential correspondence on real LightHouse histories. "
+                  "System level (component sysmon_C36): in seeded event histories of four real nodes built by nebula.Main (a peer advertising a denied and an in-overlay underlay address, roaming sources, wrong responders) no handshake, punch or encrypted datagram is written to an address inside the node's own overlay networks, denied by its remote_allow_list, or marked bad after a wrong responder answered there.",
     "level_note": "C36_static_kept excludes handshake completion (RefreshFromHandshake re-evaluates the resolver-result filter for the new vpn addresses) and calculated remotes "
                   "(both are neither tunnel closes nor lighthouse answers). bart LPM tables are modelled by a longest-prefix search over distinct prefixes. Handshake destinations are "
                   "read as RemoteList.ForEach (= CopyAddrs, checked in the C37 harness); the handshake write loop itself is not driven. Operator overrides (ssh change-remote, "
@@ -19,7 +20,7 @@ SPEC = {
     "build_comp": "remotes_admit",
     "props": ["props/C36.v"],
     "corr": ["corr/RemotesAdmit_corr.v"],
-    "comps": [{"comp": "remotes_admit", "n_quick": 140, "n_thorough": 2000}],
+    "comps": [{"comp": "remotes_admit", "n_quick": 140, "n_thorough": 2000}, {"comp": "sysmon_C36", "e2e": True, "n_quick": 12, "n_thorough": 150}],
     "trusted": ["model/RemotesAdmit.v + model/RemoteList.v are hand-written mirrors of the admission paths (tied by correspondence through a real LightHouse, Punchy, readOutsidePackets, handleHostRoaming)",
                 "the shim counts Punchy.Schedule calls through the scheduler's sync.Pool New hook and waits for that many datagrams on a recording udp.Conn",
                 "StartHandshake's static-host guard before addCalculatedRemotes is replicated in the shim (two lines of handshake_manager.go)",
